@@ -5,9 +5,12 @@ From Adeu Require Import Str Doc Project DocOps Review Inst Engine History Revie
 
 (* for EVERY history (any number of rounds, any authors, any batches / review actions / accept-all, any matcher answers) every
    saved state satisfies the single-step contract relative to the state the session loaded: an edit round only adds marks
-   and comments with ids above everything present at load (Rel with the pre-round maxima), a review round accounts for
-   every action, accept-all is the accepted view of the normalised document *)
-Theorem C07_every_step : forall ss d, trace_ok d ss (run_history d ss).
+   and comments with ids above everything present at load and, for multi-line / heading new text, paragraphs holding nothing
+   but the round's insertions (RelG with the pre-round maxima), a review round accounts for every action, accept-all is the
+   accepted view of the normalised document; and every saved state is again well-formed (paragraph identities below the next
+   free identity), so the only hypothesis - the FIRST document is well-formed, which the reader guarantees - carries through
+   the whole history *)
+Theorem C07_every_step : forall ss d, wf_ids d -> trace_ok d ss (run_history d ss).
 Proof. exact history_contracts. Qed.
 Print Assumptions C07_every_step.
 (* ids allocated in a round are above every id present when the round loaded the document - in every story -, so revision
